@@ -59,7 +59,7 @@ CHECKS = {
     "C07": dict(
         level="model_checking", design="DESIGN.md 4/C07",
         technique="TLA+ model of the worker pool (FullSync.tla) model-checked by TLC over all entry sequences and interleavings; entry sequences from the model's initial states concretised and run through the real syncRDBFile/restoreRDBFile against a model Redis whose command processing is scheduled (random / starve-one-connection), with the per-connection command log and final keyspace validated by TLC (FsTrace.tla)",
-        text="TLC proves right content, exactly-once, all-processed, failure-reported and termination for every interleaving of 2-3 workers over every sequence of <= 3-4 entries (plain, filtered, failing, two-chunk hash; with and without target.db); the real worker pools are bound by trace validation: every command's database, one writer and at most one successful RESTORE per key, every unfiltered key equal to the source value (independent decoder), failures reported, Parallel 1..8 under adversarial scheduling of the target.",
+        text="TLC proves right content, exactly-once, all-processed, failure-reported and termination for every interleaving of 2-3 workers over every sequence of <= 3-4 entries (plain, filtered, failing, two-chunk hash; with and without target.db); the real worker pools are bound by trace validation: every command's database, one writer and at most one successful RESTORE per key, every unfiltered key equal to the source value (independent decoder), failures reported (pre-existing keys under policy none, and target faults such as a busy script / OOM on one RESTORE under every policy), Parallel 1..8 under adversarial scheduling of the target, including the whole restore command over 1-3 input files and fixed target.db x db-filter scenarios in every mode.",
         note="Entry-to-worker assignment is the Go runtime's; the scheduler orders only the target side. One open finding (chunk/rewrite race) is listed in known_findings.json."),
     "C06": dict(
         level="model_checking", design="DESIGN.md 4/C06",
@@ -74,7 +74,7 @@ CHECKS = {
     "C05": dict(
         level="model_checking", design="DESIGN.md 4/C05",
         technique="TLA+ model of the byte pipeline wire -> bufio -> {header parser | bounded copy | stream copy} -> pipe (Handoff.tla) model-checked by TLC for every fragmentation of small streams; a scripted TCP source drives the real sendPSyncCmd / runIncrementalSync / dump worker with framing and fragmentation variants (boundary splits, TLC-simulated segmentations) and TLC judges the recorded observations (HandoffTrace.tla)",
-        text="The design property (output always a prefix of RDB ++ commands, remaining count never negative, completion) is model-checked for all fragmentations at small sizes; the binding feeds the real hand-off code over TCP with ~250 (quick) framing x size x fragmentation cases in PSYNC and dump mode, comparing every output byte, the dump file, and the run id / offset / size used afterwards with what the source announced.",
+        text="The design property (output always a prefix of RDB ++ commands, remaining count never negative, completion) is model-checked for all fragmentations at small sizes; the binding feeds the real hand-off code over TCP with ~250 (quick) framing x size x fragmentation cases in PSYNC and dump mode, comparing every output byte, the dump file, and the run id / offset / size used afterwards with what the source announced (also on the re-PSYNC after the source hung up, with mixed-case run ids), plus the whole dump command over two sources.",
         note="Kernel segment coalescing can hide an intended split (coverage, not soundness); fakesrc stands in for the master; > 32 MiB streams only in the thorough tier."),
     "C08": dict(
         level="model_checking", design="DESIGN.md 4/C08",
@@ -84,7 +84,7 @@ CHECKS = {
     "C19": dict(
         level="exploration", design="DESIGN.md 4/C19",
         technique="TLA+ information-flow policy (Flows.tla) evaluated by TLC over the emissions recorded from real runs of the other families' scenarios with distinct sentinel credentials and the logger at debug level",
-        text="The property quantifies over the run paths exercised; this check re-runs a complete Sync() (checkpoint load, full sync, incremental sync, drop + reconnect), full sync / restore / entry restore / incremental filter scenarios, an incremental cut + restart, checkpoint load and the slot supervisor with sentinel values in all four credential fields, reduces every log line (all levels) and the configuration echo / REST metric / syncer status documents to (sink, sentinel fields present) and lets TLC evaluate the policy; all other checks additionally scan their own log output.",
+        text="The property quantifies over the run paths exercised; this check re-runs a complete Sync() (checkpoint load, full sync, incremental sync, drop + reconnect), full sync / restore / entry restore / incremental filter scenarios, an incremental cut + restart, checkpoint load, rump, connection opening and a whole sync with an auth command the servers do not know (a Redis >= 5 echoes its arguments), and the slot supervisor (fail-over, failing nodes) with sentinel values in all four credential fields, reduces every log line (all levels) and the configuration echo / REST metric / syncer status documents to (sink, sentinel fields present) and lets TLC evaluate the policy; all other checks additionally scan their own log output.",
         note="Coverage = exercised paths (not a proof about all log statements); TLA+ only evaluates the policy; rump's driver scans its own log."),
     "C01": dict(
         level="model_checking", design="DESIGN.md 4/C01",
@@ -99,12 +99,12 @@ CHECKS = {
     "C17": dict(
         level="model_checking", design="DESIGN.md 4/C17",
         technique="TLA+ model of the decode pipeline (Decode.tla: loader, bounded channels, N workers, writer) model-checked by TLC for all interleavings (completeness, no duplication, adjacency, termination under weak fairness); the real CmdDecode.Main() is run on generated RDB files with parallel 1..8 and its parsed output - each line attributed to (record, element) and content-compared through its base64 fields - is validated by TLC against the same contract (DecodeTrace.tla)",
-        text="TLC explores every interleaving of the abstract pipeline for up to 5 records and 4 workers; the real command is bound by trace validation of its output for generated files covering every classic type and encoding, binary and numeric key names, expiries, several databases, scripts, infinite scores, hashes above the split limit, parallel 1..8.",
+        text="TLC explores every interleaving of the abstract pipeline for up to 5 records and 4 workers; the real command is bound by trace validation of its output for generated files covering every classic type and encoding, binary and numeric key names, expiries, several databases, scripts, infinite scores, hashes above the split limit in the middle of the file, more records than the channels hold, parallel 1..8.",
         note="Real goroutine schedules are sampled (free-running), not enumerated: decode.go has no gate hooks; script lines are compared as text."),
     "C16": dict(
         level="model_checking", design="DESIGN.md 4/C16",
         technique="TLA+ model of the rump executor (Rump.tla: fetcher with SCAN / DUMP / PTTL rounds, bounded channels, writer with per-connection SELECT tracking, batch flush and big-key route, receiver; keys vanishing at any moment) model-checked by TLC for all interleavings (Copied, NoGhost, termination under weak fairness); scenarios from the same space are run through the real CmdRump.Main() against two model Redis servers over TCP and the final target keyspace and the way the run ended are validated by TLC (RumpTrace.tla)",
-        text="TLC explores every interleaving and vanish history of the abstract pipeline for small keyspaces (empty pages, batch 1-2, big keys in non-zero databases, fixed target database); the real command is bound by trace validation over generated keyspaces, paginations with arbitrary cursors and empty pages, keys vanishing before DUMP / PTTL, thresholds, key_exists none / rewrite with pre-existing keys, target.db, db / key filters and key-file scans.",
+        text="TLC explores every interleaving and vanish history of the abstract pipeline for small keyspaces (empty pages, batch 1-2, big keys in non-zero databases, fixed target database); the real command is bound by trace validation over generated keyspaces, paginations with arbitrary cursors and empty pages, keys vanishing before DUMP / PTTL, thresholds, key_exists none / rewrite with pre-existing keys, target.db, db / key filters, key-file scans (with blank lines) and a rate limit below the key count with a lull at the source.",
         note="Real goroutine schedules are free-running (no gate hooks in rump.go); the model clock is fixed so TTLs compare exactly; duplicate keys in a scan are not generated."),
 }
 
